@@ -89,6 +89,11 @@ def run_check(prop: str, tier: str, verif_seed: int, runs: int | None, shrink_en
                 extra.setdefault("known", {})[k] = extra.setdefault("known", {}).get(k, 0) + v
             extra["harness_errors"] = extra.get("harness_errors", 0) + fid.pop("harness_errors")
             extra["x_fidelity_real_lifetimes"] = fid
+        if prop == "C09":
+            ro = readme_phase(pools, prop, verif_seed, 6 if tier == "quick" else 60)
+            extra.setdefault("violations", []).extend(ro.pop("violations"))
+            extra["harness_errors"] = extra.get("harness_errors", 0) + ro.pop("harness_errors")
+            extra["x_readme_boot_order_real_processes"] = ro
         # determinism slice: re-execute a few cases, histories must be identical
         det = determinism_slice(pools, prop, results, k=24 if tier == "quick" else 120)
         rc = finish(prop, tier, verif_seed, results, extra, det, known, pools, t0, shrink_enabled)
@@ -134,6 +139,35 @@ def fidelity_phase(pools, prop, verif_seed, k, known):
             if real:
                 r["devices"] = r["plan"].get("devices", 1)
                 out["violations"].append((r, real))
+    return out
+
+
+def readme_phase(pools, prop, verif_seed, k):
+    futs = []
+    for i in range(k):
+        s = P.run_seed(prop + "-readme", verif_seed, i)
+        futs.append((s, pools.submit_custom(1, "mdpsim.cases.run_readme_order", prop, s)))
+    out = {"plans": 0, "agreed": 0, "skipped": 0, "real_lifetimes": 0, "value_dtypes": {}, "violations": [], "harness_errors": 0}
+    for s, f in futs:
+        try:
+            r = f.result(timeout=900)
+        except BaseException as e:  # noqa: BLE001
+            r = {"verdict": "harness_error", "error": f"worker failed: {e}"}
+        if r["verdict"] == "skipped":
+            out["skipped"] += 1
+            continue
+        out["plans"] += 1
+        if r["verdict"] == "harness_error":
+            out["harness_errors"] += 1
+            print(f"HARNESS-ERROR readme-order seed={s}: {str(r.get('error'))[:1200]}")
+            continue
+        out["real_lifetimes"] += r.get("lifetimes", 0)
+        out["value_dtypes"][str(r.get("dtype"))] = out["value_dtypes"].get(str(r.get("dtype")), 0) + 1
+        if r["verdict"] == "violation":
+            r["devices"] = 1
+            out["violations"].append((r, r["violations"]))
+        else:
+            out["agreed"] += 1
     return out
 
 
